@@ -399,6 +399,55 @@ def rule_release(P, E):
     return r
 
 
+def rule_retry_state(P, E):
+    """evhttp_make_request only queues a request while retry_cnt != 0 and relies on retry_ev to connect: so `retry_cnt != 0` must imply `retry_ev is pending`"""
+    r = Rule("C27-retry-state", "K6/K2", "retry_cnt != 0 implies the retry timer is pending: cleanup leaves (timer armed) or (retry_cnt == 0); retry_ev is deleted only at teardown", floor=8)
+    f = P.fn("evhttp_connection_cb_cleanup")
+    evcon = ["var", f.params[0][0], "param"]
+    K = lambda fl: nkey(["fld", evcon, "evhttp_connection.%s" % fl, "->"])
+    khead = nkey(["fld", ["fld", evcon, "evhttp_connection.requests", "->"], "evcon_requestq.tqh_first", "."])
+    for rmax in (-1, 0, 1, 3):
+        for rcnt in (0, 1, 2, 3):
+            if rmax >= 0 and rcnt > rmax:
+                continue
+            env = {evcon[1]: 1, K("flags"): E["EVHTTP_CON_OUTGOING"], K("retry_max"): rmax, K("retry_cnt"): rcnt, khead: 0, "event_debug_logging_mask_": 0}
+            def hook(el, e_):
+                n = callee_name(el.e)
+                if n == "event_add" and any(is_e(q, "fld") and q[2] == "evhttp_connection.retry_ev" for q in walk(el.e[2][0])):
+                    e_["#armed"] = 1
+                    return 0
+                if n in ("evhttp_connection_reset_", "event_assign", "evhttp_connection_free"):
+                    return 0
+                return None
+            try:
+                outs = outcomes(P, f, env, hook, max_steps=800)
+            except AnalysisBroken as ex:
+                r.brk(str(ex))
+                return r
+            for rv, tr, env2 in outs:
+                armed = bool(env2.get("#armed"))
+                cnt = env2.get(K("retry_cnt"))
+                ok = armed or cnt == 0
+                r.inst((rmax, rcnt, armed, cnt), {"retry_max": rmax, "retry_cnt_before": rcnt, "timer_armed": armed, "retry_cnt_after": cnt})
+                if not ok:
+                    r.bad("K6:evhttp_connection_cb_cleanup:retry-state", "%s:%d" % (f.file, f.line), f.name,
+                          "retry_max=%d retry_cnt=%d: the function returns with retry_cnt=%s and no retry timer armed — evhttp_make_request will only queue later requests (\"do not conflict with retry_ev\") and nothing will ever start them" % (rmax, rcnt, cnt))
+    # who may delete the timer
+    for g in P.fns_in("http.c"):
+        for el in g.calls():
+            if callee_name(el.e) in ("event_del", "event_del_noblock", "event_del_block") and any(is_e(q, "fld") and q[2] == "evhttp_connection.retry_ev" for q in walk(el.e[2][0])):
+                ok = g.name == "evhttp_connection_free"
+                if not ok:
+                    # acceptable when retry_cnt is reset to 0 on every path afterwards
+                    w = g.exit_reachable_avoiding(el.pos(), lambda x: x.e[0] == "asg" and fields_of(x.e[2])[-1:] == ["evhttp_connection.retry_cnt"] and is_e(strip(x.e[3]), "int") and strip(x.e[3])[1] == 0)
+                    ok = w is None
+                r.inst(("del", g.name, el.n), {"fn": g.name, "site": el.where(), "teardown_or_resets_retry_cnt": ok}, nontrivial=False)
+                if not ok:
+                    r.bad("K2:%s:retry-timer-deleted-count-kept" % g.name, el.where(), g.name,
+                          "retry_ev is deleted here while retry_cnt may stay non-zero: requests made afterwards are queued for a retry that will never happen")
+    return r
+
+
 def rule_cleanup(P, E):
     r = Rule("C27-retry", "K3/K2", "evhttp_connection_cb_cleanup: retry arms the timer and completes nothing; give-up unlinks, completes and then releases each request", floor=3)
     f = P.fn("evhttp_connection_cb_cleanup")
@@ -559,7 +608,7 @@ def run(ctx, config):
             rr.brk("flag macro %s not found in http.c" % n)
             return [rr]
     rules = []
-    for mk in (rule_done, rule_fail, rule_incoming_fail, rule_cancel, rule_send_done, rule_make, rule_release, rule_cleanup, rule_teardown, rule_handle):
+    for mk in (rule_done, rule_fail, rule_incoming_fail, rule_cancel, rule_send_done, rule_make, rule_release, rule_retry_state, rule_cleanup, rule_teardown, rule_handle):
         try:
             rules.append(mk(P, E))
         except AnalysisBroken as ex:
